@@ -155,13 +155,15 @@ async def scenario(out, A, ports, oport, uport, kind, pattern, T, cfgname, io_na
             if ok is None:
                 out.violation("tunnel closed although the idle timeout is disabled (0)", {"who": who, "after_s": 8})
             return
-        if pattern in ("trickle-c2s", "trickle"):
-            # activity every T-1 s (at least 0.8 s) for 3T: must stay open throughout
+        if pattern in ("trickle-c2s", "trickle") or pattern.startswith("trickle-full-"):
+            # activity every T-1 s (at least 0.8 s) for 3T: must stay open throughout. "trickle-full-N": every record is exactly
+            # the proxy's buffer size, so every read the proxy makes returns a full buffer
             step = max(0.8, T - 1.0)
             t_end = now() + 3 * T
+            rec_payload = b"f" * int(pattern.rsplit("-", 1)[1]) if pattern.startswith("trickle-full-") else b"t"
             while now() < t_end:
                 await asyncio.sleep(step)
-                r = await ping(t, b"t")
+                r = await ping(t, rec_payload)
                 if r is None:
                     out.violation("tunnel closed for idleness although data was relayed less than the period ago", {"who": who, "period_s": T, "trickle_every_s": step, "last_activity_s_ago": round(now() - t_act, 2)})
                     return
@@ -361,7 +363,8 @@ async def main(args):
         jobs = []
         for io_name, io in ios:
             for cname, tmo, t_tcp, t_udp in configs:
-                A, C, ports = build(args, tmo, io, wd, origin.port, uport, cname + io_name)
+                io_cfg = dict(io, bufferSize=4096) if cname == "idle4-udp2" else io   # one proxy with a small buffer (see trickle-full)
+                A, C, ports = build(args, tmo, io_cfg, wd, origin.port, uport, cname + io_name)
                 procs += [A, C]
                 await A.start()
                 await C.start()
@@ -379,6 +382,8 @@ async def main(args):
                         pats = ["silent"] if (args.thorough or kind in ("http", "revudp")) else []
                     else:
                         pats = ["silent", "trickle", "burst"] if args.thorough else [rng.choice(["silent", "burst"]), "trickle"] if kind in ("http", "socks", "socks-udp") else ["silent"]
+                    if cname == "idle4-udp2" and kind in ("http", "rev"):
+                        pats = list(pats) + ["trickle-full-4096"]
                     for p in pats:
                         jobs.append((A, ports, kind, p, T, cname, io_name))
         async def run(j):
